@@ -202,10 +202,10 @@ LenRevivers ==
      [k |-> "setlen", key |-> K1, n |-> 2], [k |-> "setlen", key |-> K0, n |-> 5], [k |-> "setlen", key |-> <<50>>, n |-> 0],
      [k |-> "push", key |-> K0, v |-> IntV(99)], [k |-> "push", key |-> K1, v |-> A1(IntV(7))], [k |-> "push", key |-> K0, v |-> O1(Ka, IntV(7))],
      [k |-> "setel", key |-> K0, sib |-> K1, v |-> O1(<<120>>, IntV(1))],          \* a later element replaced by an object: walked
-     [k |-> "setel", key |-> K0, sib |-> <<50>>, v |-> A2(IntV(8), IntV(9))],      \* at / beyond the end
+     [k |-> "setel", key |-> K0, sib |-> <<50>>, v |-> O2(<<120>>, IntV(8), <<121>>, A1(IntV(9)))],   \* at / beyond the end
      [k |-> "setel", key |-> K1, sib |-> K0, v |-> A1(IntV(8))],                   \* an earlier element: not walked again
      [k |-> "setel", key |-> K0, sib |-> <<53>>, v |-> IntV(1)],                   \* far beyond the end: holes
-     [k |-> "setel", key |-> Ka, sib |-> Kb, v |-> O2(Ka, IntV(5), Kb, A1(IntV(6)))],   \* the same on objects: key list taken once
+     [k |-> "setel", key |-> Ka, sib |-> Kb, v |-> O2(Kc, IntV(5), Kb, A1(IntV(6)))],   \* the same on objects: key list taken once (no member a inside: the walk would not end)
      [k |-> "setel", key |-> Ka, sib |-> <<122>>, v |-> A1(IntV(1))],
      [k |-> "setel", key |-> Kb, sib |-> Ka, v |-> O1(Ka, IntV(1))],
      [k |-> "delsib", key |-> K0, sib |-> <<50>>], [k |-> "delsib", key |-> K1, sib |-> K0], [k |-> "undefkey", key |-> K1]}
